@@ -1,4 +1,5 @@
 import CTV.Basic.Bytes
+import CTV.Gen.TbsFacts
 /-!
 DER tag–length–value level, exactly as the repository's `asn1` fork reads and writes it
 (`asn1/asn1.go parseTagAndLength`, `parseBase128Int`; `asn1/marshal.go appendTagAndLength`, `lengthLength`).
@@ -24,8 +25,11 @@ def b128Split : Bytes → Option (Bytes × Bytes)
 
 def b128Val (g : Bytes) : Nat := g.foldl (fun a b => a * 128 + b.toNat % 128) 0
 
-/-- `parseBase128Int` gives up before a sixth byte and refuses values above `math.MaxInt32` -/
-def b128Ok (g : Bytes) : Bool := decide (g.length ≤ 5) && decide (b128Val g ≤ 0x7fffffff)
+/-- `parseBase128Int` gives up before a sixth byte and refuses values above `math.MaxInt32`; since the fix for the
+padded-arc acceptance it also refuses a leading 0x80 (`Gen.base128RejectsPadding` is read from the source on every run,
+so the model follows whichever version of the function is in the tree) -/
+def b128Ok (g : Bytes) : Bool :=
+  decide (g.length ≤ 5) && decide (b128Val g ≤ 0x7fffffff) && (!Gen.base128RejectsPadding || g.head? != some 0x80)
 
 /-! ### identifier octets -/
 
